@@ -48,3 +48,4 @@ CONSTANTS
  SendWhileDisc = TRUE
  PeerWhileDisc = FALSE
  LateFrames = FALSE
+ CrossVersion = FALSE
